@@ -117,11 +117,59 @@ fn gen_string_gram(rng: &mut Rng) -> Gram {
     g
 }
 
+/// free text interleaved with tagged sections whose head is a lazy terminal (docs/syntax.md):
+/// a lazy lexeme can end in the middle of a token, so slices must not be applied while one is live
+fn gen_lazy_lark(rng: &mut Rng) -> (String, Vec<Vec<u8>>) {
+    let tag = *rng.pick(&["<fn", "<a", "[[", "<x"]);
+    let close = *rng.pick(&["</fn>", "]]", ">"]);
+    let text = *rng.pick(&["/(.|\\n)*/", "/[a-z <>=\\/0-9\\[\\]]*/", "/[^\\x00]*/"]);
+    let body = *rng.pick(&["/[0-9]+/", "/[a-e]{1,12}/", "TEXT2"]);
+    let rules = if rng.chance(1, 2) {
+        "start: f_end | f_foo start\nf_end: TEXT\n".to_string()
+    } else {
+        "start: ( f_foo )* f_end\nf_end: TEXT\n".to_string()
+    };
+    // the order of the terminal definitions decides the lexeme indices
+    let t_text = format!("TEXT: {text}\n");
+    let t_hd = format!("f_foo_hd[lazy]: TEXT \"{tag}\"\n");
+    let t_foo = format!("f_foo: f_foo_hd \"=foo>\" {body} \"{close}\"\nTEXT2: /[a-z ]{{0,20}}/\n");
+    let lark = match rng.below(3) {
+        0 => format!("{rules}{t_text}{t_hd}{t_foo}"),
+        1 => format!("{rules}{t_hd}{t_text}{t_foo}"),
+        _ => format!("{rules}{t_foo}{t_hd}{t_text}"),
+    };
+    let mut extra: Vec<Vec<u8>> = vec![];
+    for suf in [">", "x", "=foo>", "=foo>1", "=", "=f"] {
+        extra.push(format!("{tag}{suf}").into_bytes());
+    }
+    extra.push(format!("{tag}{tag}").into_bytes());
+    extra.push(tag.as_bytes()[1..].to_vec());
+    extra.push(format!("{}>", &tag[1..]).into_bytes());
+    extra.push(format!("a{tag}").into_bytes());
+    extra.push(format!(" {tag}=foo>12{close}").into_bytes());
+    extra.push(close.as_bytes().to_vec());
+    extra.push(format!("1{close}").into_bytes());
+    (lark, extra)
+}
+
 pub fn case(rng: &mut Rng, out: &mut Out) {
-    let (ws, eos) = string_vocab(rng, 80);
+    let (mut ws, _) = string_vocab(rng, 80);
+    let lazy = rng.chance(1, 4);
+    let lazy_lark = if lazy {
+        let (l, extra) = gen_lazy_lark(rng);
+        ws.pop(); // the EOS entry goes last
+        ws.extend(extra);
+        ws.push(b"\xFF<|eos|>".to_vec());
+        Some(l)
+    } else {
+        None
+    };
+    let eos = (ws.len() - 1) as u32;
     let env = make_env(&ws, eos, false);
-    let use_json = rng.chance(1, 2);
-    let (tg, lark_g) = if use_json {
+    let use_json = !lazy && rng.chance(1, 2);
+    let (tg, lark_g) = if let Some(l) = &lazy_lark {
+        (TopLevelGrammar::from_lark(l.clone()), None)
+    } else if use_json {
         (TopLevelGrammar::from_json_schema(gen_json_schema(rng)), None)
     } else {
         let g = gen_string_gram(rng);
@@ -204,7 +252,7 @@ pub fn case(rng: &mut Rng, out: &mut Out) {
         hist.push(t);
     }
     out.count("slices_applied", applied);
-    out.count(if use_json { "json_grammars" } else { "lark_grammars" }, 1);
+    out.count(if lazy { "lazy_lexeme_grammars" } else if use_json { "json_grammars" } else { "lark_grammars" }, 1);
     if let Some(g) = lark_g {
         if ms.len() == confs.len() {
             let mut inp = vec![g.to_sx()];
